@@ -237,16 +237,28 @@ def run_case(case):
         return run_retain(case)
     kinds = case['kinds']
     debug = case['debug']
-    rids = ['r%d' % i for i in range(len(kinds))]
+    # identities of different lengths: a length that sticks from an earlier response (Content-Length) must show
+    rids = ['r%d' % i + 'x' * i for i in range(len(kinds))]
     last_kind, last_rid = kinds[-1], rids[-1]
 
     # 1. the history, one application, one thread
     app = make_app(debug)
 
+    inconsistent = []
+
     def history():
         out = None
         for kind, rid in zip(kinds, rids):
-            out = fingerprint(serve(app, make_request(kind, rid)))
+            env = make_request(kind, rid)
+            out = fingerprint(serve(app, env))
+            # every response must be consistent in itself: a Content-Length that stuck from an earlier response
+            # (e.g. on an error object shared by all requests) does not describe this body.  (The comparison with a
+            # fresh application below cannot see that: process-wide shared objects are shared by the reference too.)
+            cl = [v for k, v in out['headers'] if k.lower() == 'content-length']
+            code = int(str(out['status']).split()[0]) if out['status'] else 0
+            if (cl and out['body'] is not None and env['REQUEST_METHOD'] != 'HEAD' and code >= 200
+                    and code not in (204, 304) and any(int(c) != len(out['body']) for c in cl if c.isdigit())):
+                inconsistent.append(dict(kind=kind, rid=rid, content_length=cl, body_len=len(out['body']), status=out['status']))
         return out
     if case['where'] == 'main':
         got = history()
@@ -256,6 +268,9 @@ def run_case(case):
             return fail('deadlock/timeout', where='history thread')
         if exc is not None:
             raise exc
+
+    if inconsistent:
+        return fail('H2.content_length_of_another_response', responses=inconsistent)
 
     # 2. the same request alone on a fresh application (building thread)
     ref_main = fingerprint(serve(make_app(debug), make_request(last_kind, last_rid)))
